@@ -59,21 +59,31 @@ theorem pipeline_eq (cmds : List Node) (cwd : String) (r : Bool) :
   rw [rejoin_action, aNodes_eq_map]
   simp [acts, List.map_map, Function.comp_def]
 
-/-- `a ; b && c || d & e ⏎ f` – operators are skipped; the parts see the effective cwd
-    (the given cwd unless the list starts with a literal `cd`) -/
+/-- the verdicts of the parts of a list, operators skipped: the first part in the cwd the list is entered in (a leading
+    `cd` still runs there), the later ones in the effective cwd (where a leading literal `cd` leads) -/
+def listPartVerdicts (parts : List Node) (cwd : String) (r : Bool) : List Action :=
+  match parts.filter (fun n => !isOperator n) with
+  | [] => []
+  | p :: ps => V p cwd r :: ps.map (fun q => V q (effectiveCwd w parts cwd r) r)
+
+/-- `a ; b && c || d & e ⏎ f` -/
 theorem list_eq (parts : List Node) (cwd : String) (r : Bool) :
-    V (.list parts) cwd r
-      = supList ((parts.filter fun n => !isOperator n).map fun p =>
-          V p (effectiveCwd w parts cwd r) r) := by
-  simp only [verdict, aNode]
-  rw [rejoin_action, aListParts_eq]
-  simp [acts, List.map_map, Function.comp_def]
+    V (.list parts) cwd r = supList (listPartVerdicts w rec h parts cwd r) := by
+  simp only [verdict, aNode, listPartVerdicts]
+  rw [rejoin_action, aListPartsCd_eq]
+  cases parts.filter (fun n => !isOperator n) with
+  | nil => simp [acts]
+  | cons p ps => simp [acts, verdict, List.map_map, Function.comp_def]
 
 /-- under a fixed cwd (the list does not start with a literal `cd`) -/
 theorem list_eq_fixed_cwd (parts : List Node) (cwd : String) (r : Bool)
     (hcd : effectiveCwd w parts cwd r = cwd) :
     V (.list parts) cwd r = supList ((parts.filter fun n => !isOperator n).map fun p => V p cwd r) := by
-  rw [list_eq, hcd]
+  rw [list_eq]
+  simp only [listPartVerdicts, hcd]
+  cases parts.filter (fun n => !isOperator n) with
+  | nil => rfl
+  | cons p ps => rfl
 
 theorem if_eq (c t : Node) (e : Option Node) (rs : List Redir) (cwd : String) (r : Bool) :
     V (.ifN c t e rs) cwd r
